@@ -50,12 +50,6 @@ def register_all():
                "fresh q,r constrained by the truncated-division lemma)"],
         only_props=["C12", "C16"])
     registry.HARNESSES["e2::view_and_rounding_kernels"]["engine"] = "e2"
-    registry.PROPERTY_TAGS.setdefault("C12", [])
-    for p, tags in (("C12", ["K-view", "K-round"]), ("C16", ["K-view", "K-round"])):
-        EXTRA_TAGS.setdefault(p, [])
-        for t in tags:
-            if t not in EXTRA_TAGS[p]:
-                EXTRA_TAGS[p].append(t)
 
 
 def run_unit(h, lane):
